@@ -28,10 +28,12 @@ var YieldHook func(site string)
 type countingHandler struct{}
 
 func (countingHandler) Enabled(context.Context, slog.Level) bool {
-	SlogSteps.Add(1)
 	if h := YieldHook; h != nil {
+		// scheduled run: no shared counter here (an atomic would order the workers for the race detector)
 		h("slog")
+		return false
 	}
+	SlogSteps.Add(1)
 	return false
 }
 func (countingHandler) Handle(context.Context, slog.Record) error { return nil }
